@@ -262,6 +262,15 @@ pub fn derive_seed(seed: u64, id: &str, sub: &str, shard: u32) -> [u8; 32] {
 }
 
 impl Ctx {
+    /// Where evidence and new replay files go: VERIF_OUT (used when trying seeded changes, so that
+    /// the committed evidence is not overwritten) or the /verif directory.
+    fn out_dir(&self) -> std::path::PathBuf {
+        match std::env::var("VERIF_OUT") {
+            Ok(d) if !d.is_empty() => std::path::PathBuf::from(d),
+            _ => self.verif_dir.clone(),
+        }
+    }
+
     pub fn new(id: &str, tier: Tier, seed: u64, verif_dir: std::path::PathBuf) -> Self {
         let known = load_findings(&verif_dir)
             .into_iter()
@@ -366,7 +375,7 @@ impl Ctx {
 
     /// Record a violation with its replay file written; prints the VIOLATION line.
     pub fn violation(&self, sub: &str, fail: &Fail, case: Value, all_fails: &[Fail]) {
-        let dir = self.verif_dir.join("replays").join("new");
+        let dir = self.out_dir().join("replays").join("new");
         let _ = std::fs::create_dir_all(&dir);
         let name = format!(
             "{}_{}_{:016x}.json",
@@ -458,9 +467,16 @@ impl Ctx {
         let shrink_evals = std::sync::atomic::AtomicU32::new(0);
         let first_sig: Mutex<Option<String>> = Mutex::new(None);
         let first_case: Mutex<Option<C>> = Mutex::new(None);
-        let shrink_budget = self.shrink_budget.load(Ordering::Relaxed);
+        // VERIF_NO_SHRINK: report the first failing case as it is (used when trying seeded changes, where only the verdict matters)
+        let shrink_budget = if std::env::var("VERIF_NO_SHRINK").is_ok() { 0 } else { self.shrink_budget.load(Ordering::Relaxed) };
+        // minimisation also stops after a wall-clock allowance (default 60 s per shard); this bounds the cost of a red
+        // run with an expensive oracle and never changes the verdict: the failing case found so far is what is reported
+        let shrink_secs: u64 = std::env::var("VERIF_SHRINK_SECS").ok().and_then(|s| s.parse().ok()).unwrap_or(60);
+        let failed_at: Mutex<Option<std::time::Instant>> = Mutex::new(None);
         let res = runner.run(&strat, |case| {
-            if failed.load(Ordering::Relaxed) && shrink_evals.fetch_add(1, Ordering::Relaxed) >= shrink_budget {
+            if failed.load(Ordering::Relaxed)
+                && (shrink_evals.fetch_add(1, Ordering::Relaxed) >= shrink_budget || failed_at.lock().unwrap().map(|t| t.elapsed().as_secs() >= shrink_secs).unwrap_or(false))
+            {
                 // minimisation budget used up (expensive oracles): keep the smallest failing case found so far
                 return Ok(());
             }
@@ -482,6 +498,7 @@ impl Ctx {
                 Ok(())
             } else {
                 failed.store(true, Ordering::Relaxed);
+                *failed_at.lock().unwrap() = Some(std::time::Instant::now());
                 *first_sig.lock().unwrap() = Some(unknown[0].signature());
                 *first_case.lock().unwrap() = Some(case.clone());
                 Err(TestCaseError::fail(unknown[0].signature()))
@@ -604,7 +621,7 @@ impl Ctx {
             "wall_s": self.start.elapsed().as_secs_f64(),
             "violations": vio_sigs.len(),
         });
-        let dir = self.verif_dir.join("evidence");
+        let dir = self.out_dir().join("evidence");
         let _ = std::fs::create_dir_all(&dir);
         let path = dir.join(format!("{}.json", self.id));
         if let Err(e) = std::fs::write(&path, serde_json::to_vec_pretty(&ev).unwrap()) {
@@ -704,4 +721,21 @@ pub fn pick_idx(i: u16, len: usize) -> usize {
     } else {
         ((i as usize) * len) >> 16
     }
+}
+
+/// Write `n` values drawn from a strategy as files (seed corpora of the coverage-guided campaigns).
+pub fn dump_strategy<S: Strategy>(dir: &std::path::Path, n: u32, seed: u64, id: &str, strat: S, to_bytes: impl Fn(&S::Value) -> Option<Vec<u8>>) -> std::io::Result<usize> {
+    use proptest::strategy::ValueTree;
+    std::fs::create_dir_all(dir)?;
+    let rng = TestRng::from_seed(RngAlgorithm::ChaCha, &derive_seed(seed, id, "corpus", 0));
+    let mut runner = TestRunner::new_with_rng(Config::default(), rng);
+    let mut written = 0;
+    for _ in 0..n {
+        let Ok(tree) = strat.new_tree(&mut runner) else { continue };
+        if let Some(bytes) = to_bytes(&tree.current()) {
+            std::fs::write(dir.join(format!("{:016x}", hash64(&bytes))), &bytes)?;
+            written += 1;
+        }
+    }
+    Ok(written)
 }
